@@ -16,6 +16,7 @@ import (
 
 	"github.com/DataDog/datadog-go/v5/statsd"
 	"go.uber.org/zap"
+	"go.uber.org/zap/zapcore"
 
 	"github.com/mimiro-io/datahub/internal/conf"
 )
@@ -144,14 +145,41 @@ func verifOutEnt(e *Entity) VerifEnt {
 }
 
 type verifHub struct {
-	dir   string
-	store *Store
-	dsm   *DsManager
+	dir    string
+	store  *Store
+	dsm    *DsManager
+	errlog *bytes.Buffer // error-level log lines of the hub (NewStore swallows badger.Open's error)
+	shares func(ds string) // called when StoreEntitiesWithTransaction starts on a dataset (via the statsd client)
 }
 
+// statsd client that reports the "ds.added.items" counter StoreEntitiesWithTransaction emits first thing: the only way to
+// see in which order ExecuteTransaction's `range datasets` (a Go map) processes the datasets of a transaction
+type verifStatsd struct {
+	statsd.NoOpClient
+	h *verifHub
+}
+
+func (c *verifStatsd) Count(name string, value int64, tags []string, rate float64) error {
+	if name == "ds.added.items" && c.h.shares != nil {
+		for _, t := range tags {
+			if strings.HasPrefix(t, "dataset:") {
+				c.h.shares(t[len("dataset:"):])
+			}
+		}
+	}
+	return nil
+}
+
+type verifSyncBuf struct{ b *bytes.Buffer }
+
+func (w verifSyncBuf) Write(p []byte) (int, error) { return w.b.Write(p) }
+func (w verifSyncBuf) Sync() error                 { return nil }
+
 func (h *verifHub) open() {
-	cfg := &conf.Config{Logger: zap.NewNop().Sugar(), StoreLocation: h.dir + "/store"}
-	h.store = NewStore(cfg, &statsd.NoOpClient{})
+	h.errlog = &bytes.Buffer{}
+	core := zapcore.NewCore(zapcore.NewConsoleEncoder(zap.NewDevelopmentEncoderConfig()), verifSyncBuf{h.errlog}, zapcore.ErrorLevel)
+	cfg := &conf.Config{Logger: zap.New(core).Sugar(), StoreLocation: h.dir + "/store"}
+	h.store = NewStore(cfg, &verifStatsd{h: h})
 	h.dsm = NewDsManager(cfg, h.store, NoOpBus())
 }
 
